@@ -397,7 +397,7 @@ async fn scenario(seq: Vec<u8>) -> Vec<String> {
                     }
                     let got_labels = labels_of(&text);
                     if got_labels != want_labels || (text.is_empty() != want_labels.is_empty()) {
-                        fails.push(format!("{{\"class\":\"error_text\",{},\"got\":\"{}\",\"want\":\"names exactly {:?}\"}}", head, esc(&text), want_labels));
+                        fails.push(format!("{{\"class\":\"error_text\",{},\"got\":\"{}\",\"want\":\"names exactly [{}]\"}}", head, esc(&text), want_labels.join(", ")));
                     }
                 }
             }
@@ -439,7 +439,7 @@ fn sequences() -> Vec<Vec<u8>> {
 }
 
 #[test]
-fn console_vxw_c16_orders() {
+fn console_vxw_c16_a_orders() {
     ensure_config();
     let rt = tokio::runtime::Builder::new_multi_thread().worker_threads(4).enable_all().build().unwrap();
     let started = std::time::Instant::now();
@@ -472,7 +472,7 @@ fn console_vxw_c16_orders() {
 // the three subsystems report at the same time from separate tasks, with queries in flight: no report may be lost,
 // and no answer may say finished before the last of the three reports was even started
 #[test]
-fn console_vxw_c16_concurrent_reports() {
+fn console_vxw_c16_b_concurrent_reports() {
     ensure_config();
     let rt = tokio::runtime::Builder::new_multi_thread().worker_threads(4).enable_all().build().unwrap();
     let mut n = 0u64;
@@ -551,7 +551,7 @@ struct SharedStateRef(
 // status.tag is only ever replaced, never rewritten in place: an observer that still holds the previous file (here: a
 // second hard link to it) must keep seeing the previous content in full
 #[test]
-fn console_vxw_c16_status_tag_replaced_atomically() {
+fn console_vxw_c16_c_status_tag_replaced_atomically() {
     ensure_config();
     let rt = tokio::runtime::Builder::new_multi_thread().worker_threads(2).enable_all().build().unwrap();
     let mut n = 0u64;
@@ -600,7 +600,7 @@ fn console_vxw_c16_status_tag_replaced_atomically() {
                     if newtxt != old {
                         let want: Vec<String> = m.not_ready_labels().iter().map(|s| s.to_string()).collect();
                         if labels_of(&newtxt) != want {
-                            println!("VXW-FAIL {{\"class\":\"error_text\",\"order\":\"{}\",\"after\":\"{}\",\"got\":\"status.tag: {}\",\"want\":\"names exactly {:?}\"}}", seq_s, op_name(*op), esc(&newtxt), want);
+                            println!("VXW-FAIL {{\"class\":\"error_text\",\"order\":\"{}\",\"after\":\"{}\",\"got\":\"status.tag: {}\",\"want\":\"names exactly [{}]\"}}", seq_s, op_name(*op), esc(&newtxt), want.join(", "));
                             break;
                         }
                     }
